@@ -443,3 +443,17 @@ func init() {
 		},
 	})
 }
+
+func init() {
+	register(&Property{
+		ID:    "C16",
+		Units: []string{"fasthttp.TimeoutWithCodeHandler", "fasthttp.(*RequestCtx).TimeoutErrorWithCode", "fasthttp.(*RequestCtx).TimeoutErrorWithResponse", "fasthttp.(*Server).ServeConn", "fasthttp.(*Server).serveConnCounted", "fasthttp.(*Server).acquireCtx", "fasthttp.(*Server).releaseCtx", "fasthttp.initTimer", "fasthttp.stopTimer", "fasthttp.writeResponse"},
+		Runs: []Run{
+			{Pkg: "fasthttp", Func: "vhC16LateHandler", NoNative: true},
+		},
+		Assume: []string{
+			"the real TimeoutWithCodeHandler (100 ms) and serve loop on a scripted connection, engine scheduler with virtual time: the wrapped handler of request 1 wakes up at 150 / 230 / 400 ms and again 20 / 200 ms later and rewrites status, headers (two symbolic bytes), body, Connection and the request URI of its RequestCtx each time; request 2 arrives at once or at 220 ms and its handler takes 0 or 50 ms, so the late writes fall before, inside and after the handling of request 2; ReduceMemoryUsage on/off; Concurrency default or 1 (then request 2 must be answered 429 exactly when the abandoned handler still holds the only slot)",
+			"interleaving happens at the sleep points chosen above (cooperative scheduler), not between arbitrary instructions: data races of a late handler with the serve loop are C37's subject and outside; handlers that write to ctx.Conn() directly are outside; sampled paths are not re-run natively (real time cannot be forced onto the virtual timeline)",
+		},
+	})
+}
